@@ -1,6 +1,6 @@
 SPECIFICATION Spec
 CONSTANTS
-  Params <- SendDup
+  Params <- SendBigWShort
   MaxBase = 1000000
   MaxHist = 1000000
 VIEW View
